@@ -1,6 +1,6 @@
 SPECIFICATION TSpec
 CONSTANTS
-  Modes = {"A", "B", "C", "D", "E"}
+  Modes = {"A", "B", "C", "D", "E", "G"}
   Prio <- FullPrio
   Auto <- FullAuto
   Deviations = {}
